@@ -124,12 +124,14 @@ def getFile : File :=
     services := [getSvc] }
 def getRq : Request := { files := [getFile] }
 
-/-- one accepted GET route shows two findings at once: the client's field identifier and the
-TS server's duplicate `const url`. -/
+/-- one accepted GET route shows the client's field-identifier finding; the TS server route of the
+same RPC parses the URL for path AND query parameters — before the repair that declared
+`const url` twice (entry `ts:ts_server_duplicate_const_url`, fixed), now no load defect is predicted. -/
 theorem w_client_ident_and_ts_url :
     runGoHttp getRq = none ∧ runTsServer getRq = none ∧
     "client_path_field_identifier" ∈ goDefects getRq "go-client" ∧ goDefects getRq "go-http" = [] ∧
-    tsServerDefects getRq = ["ts_server_duplicate_const_url"] := by decide
+    tsServerTwoUrlUses getRq = ["Get".toList] ∧ tsServerDefectsBeforeFix getRq = ["ts_server_duplicate_const_url"] ∧
+    tsServerDefects getRq = [] := by decide
 
 def hdrMeth : Method :=
   { name := "Do".toList
